@@ -8,22 +8,22 @@ def StOk (s : St) : Prop := s.status ≠ .cancelled
 
 def Eff (s s' : St) (k : Nat) : Prop :=
   ∃ tags : List (Option String), tags.length = k ∧ s'.incs = s.incs ++ tags ∧
-    s'.status = (if k = 0 then s.status else .modified)
+    s'.status = (if k = 0 then s.status else .modified) ∧ (s.fuelOut = true → s'.fuelOut = true)
 
-theorem Eff.of_TS {s s' : St} (h : TS s' s) : Eff s s' 0 := ⟨[], rfl, by simp [h.1], by simp [h.2]⟩
+theorem Eff.of_TS {s s' : St} (h : TS s' s) : Eff s s' 0 := ⟨[], rfl, by simp [h.1], by simp [h.2.1], h.2.2⟩
 theorem Eff.refl (s : St) : Eff s s 0 := Eff.of_TS (TS.refl s)
 
 theorem Eff.trans {s s1 s2 : St} {k1 k2 : Nat} (h1 : Eff s s1 k1) (h2 : Eff s1 s2 k2) : Eff s s2 (k1 + k2) := by
-  obtain ⟨t1, l1, i1, st1⟩ := h1
-  obtain ⟨t2, l2, i2, st2⟩ := h2
-  refine ⟨t1 ++ t2, by simp [l1, l2], by rw [i2, i1, List.append_assoc], ?_⟩
+  obtain ⟨t1, l1, i1, st1, f1⟩ := h1
+  obtain ⟨t2, l2, i2, st2, f2⟩ := h2
+  refine ⟨t1 ++ t2, by simp [l1, l2], by rw [i2, i1, List.append_assoc], ?_, fun h => f2 (f1 h)⟩
   rw [st2, st1]
   by_cases hk2 : k2 = 0
   · simp [hk2]
   · simp [hk2]
 
 theorem Eff.stOk {s s' : St} {k : Nat} (h : Eff s s' k) (hs : StOk s) : StOk s' := by
-  obtain ⟨_, _, _, st⟩ := h
+  obtain ⟨_, _, _, st, _⟩ := h
   unfold StOk at *
   rw [st]
   split
@@ -39,7 +39,7 @@ theorem updateStatus_modified (tag : Option String) (s : St) (hs : StOk s) :
   have : (s.status == Status.cancelled) = false := by
     cases h : s.status <;> simp_all <;> rfl
   simp only [this, Bool.false_eq_true, if_false]
-  exact ⟨[tag], rfl, by simp <;> rfl, by simp <;> rfl⟩
+  exact ⟨[tag], rfl, by simp <;> rfl, by simp <;> rfl, id⟩
 
 theorem updateStatus_notModified (tag : Option String) (s : St) : (updateStatus .notModified tag s).2 = s := by
   simp only [updateStatus, run_modify]
@@ -53,9 +53,9 @@ theorem updateStatus_statusOf (res : Option Node) (tag : Option String) (s : St)
   | none => simp only [statusOf, Option.isSome_none, Bool.false_eq_true, if_false]; rw [updateStatus_notModified]; exact Eff.refl s
   | some e => simp only [statusOf, Option.isSome_some, if_true]; exact updateStatus_modified tag s hs
 
-theorem resetCounter_TS (s : St) : TS (resetCounter s).2 s := ⟨rfl, rfl⟩
-theorem registerVariable_TS (n : Name) (sp : Span) (s : St) : TS (registerVariable n sp s).2 s := ⟨rfl, rfl⟩
-theorem outOfFuel_TS (s : St) : TS (outOfFuel s).2 s := ⟨rfl, rfl⟩
+theorem resetCounter_TS (s : St) : TS (resetCounter s).2 s := ⟨rfl, rfl, id⟩
+theorem registerVariable_TS (n : Name) (sp : Span) (s : St) : TS (registerVariable n sp s).2 s := ⟨rfl, rfl, id⟩
+theorem outOfFuel_TS (s : St) : TS (outOfFuel s).2 s := ⟨rfl, rfl, fun _ => rfl⟩
 
 /-- the end of every `with_child_ctx` arm -/
 theorem finish_TS (root : Bool) (x : Node) (s : St) :
